@@ -18,7 +18,7 @@ func validateInvoice(inv *bill.Invoice) error {
 
 func validateInvoiceSupplier(value interface{}) error {
 	obj, ok := value.(*org.Party)
-	if !ok {
+	if !ok || obj == nil {
 		return nil
 	}
 	return validation.ValidateStruct(obj,
